@@ -91,6 +91,8 @@ type VersionedFetcher struct {
 	// Transient version store
 	root  corekv.TxnStore
 	store datastore.Txn
+	// closeStore releases the background goroutines of the transient store.
+	closeStore context.CancelFunc
 
 	queuedCids *list.List
 	// mergedCids contains the CIDs of the blocks that have been merged into the transient store.
@@ -121,7 +123,18 @@ func (vf *VersionedFetcher) Init(
 	vf.txn = txn
 
 	// create store
-	root := memory.NewDatastore(ctx)
+	//
+	// The lifetime of the transient store must not be tied to the request context: the memory
+	// store closes itself from another goroutine as soon as its context is done, and a Close that
+	// arrives while this goroutine is inside one of the store's operations blocks it for good (the
+	// store takes the read lock of its close mutex more than once on the calling goroutine).
+	// The store is closed by Close instead, which also ends the store's background goroutines.
+	if vf.closeStore != nil {
+		vf.closeStore()
+	}
+	storeCtx, closeStore := context.WithCancel(context.WithoutCancel(ctx))
+	vf.closeStore = closeStore
+	root := memory.NewDatastore(storeCtx)
 	vf.root = root
 
 	// Copy the entire system store into the temp store so that important stuff
@@ -442,6 +455,9 @@ func (vf *VersionedFetcher) getDAGBlock(c cid.Cid) (*coreblock.Block, error) {
 
 // Close closes the VersionedFetcher.
 func (vf *VersionedFetcher) Close() error {
+	if vf.closeStore != nil {
+		defer vf.closeStore()
+	}
 	if err := vf.root.Close(); err != nil {
 		return err
 	}
